@@ -99,6 +99,8 @@ func snapshot(c config.Config) []interface{} {
 }
 
 type world struct {
+	lastData []byte // the bytes of the last external write
+	away     bool   // the last deletion was a rename to <path>.away and nothing was written since
 	c      *core.Ctx
 	t      *core.Trace
 	r      *rand.Rand
@@ -310,6 +312,7 @@ func (w *world) deleteFile() {
 		panic(fmt.Sprint("the configuration file is still there: ", err))
 	}
 	w.gone, w.everGone = true, true
+	w.away = how == 1
 	w.sig = append(w.sig, "del")
 	w.t.Emit(core.Ev{"ev": "Delete", "how": how})
 }
@@ -367,9 +370,28 @@ func (w *world) writeFile() []byte {
 		}
 	}
 	setStamp(w.path, w.sec, w.ms)
-	w.gone = false
+	w.gone, w.away = false, false
+	w.lastData = append([]byte(nil), data...)
 	w.remember()
 	return data
+}
+
+// restoreFile plays the external writer putting back exactly what it took away: the same bytes
+// under the same modification time (the renamed file moved back, a copy that preserves the
+// stamp).  Only called after the poller has seen the file missing: what the configuration
+// remembers of the version it loaded before says nothing about the file that is there now.
+func (w *world) restoreFile() {
+	if w.away {
+		if err := os.Rename(w.path+".away", w.path); err != nil {
+			panic(err)
+		}
+	} else if err := os.WriteFile(w.path, w.lastData, 0o644); err != nil {
+		panic(err)
+	}
+	setStamp(w.path, w.sec, w.ms)
+	w.gone, w.away = false, false
+	w.sig = append(w.sig, "restore")
+	w.t.Emit(core.Ev{"ev": "Edit", "lines": linesEv(w.lines), "parsed": linesEv(parseProps(w.lastData)), "mt": []int{w.sec, w.ms}})
 }
 
 func (w *world) reset(gen string, cas int, pre, suf string, excl []string, nobs int) {
@@ -694,7 +716,7 @@ func (w *world) hasKey(k string) bool {
 	return false
 }
 
-var commentTexts = []string{"# plain comment", "! bang comment", "#", "# key=value in a comment", "#a = b = c", "  # indented", "#x=", "# 한글 주석", "!k:v", "# trailing blanks  ", "#=", "# a=b\\"}
+var commentTexts = []string{"# plain comment", "! bang comment", "#", "# key=value in a comment", "#a = b = c", "  # indented", "  # indented k=v", "\t! tab = bang = x", " #a=b=c", "\f#ff=1", "#x=", "# 한글 주석", "!k:v", "# trailing blanks  ", "#=", "# a=b\\"}
 
 func (w *world) randLine(exoticKeys bool, forms []int, plainVals bool) (Line, int) {
 	r := w.r
@@ -875,11 +897,17 @@ func histEdit(c *core.Ctx, t *core.Trace, gen string, cas int) {
 		case x == 10 && !w.gone:
 			// the file disappears; the poller looks once or twice; sometimes a write-back is asked for
 			w.deleteFile()
-			for n := r.Intn(3); n > 0; n-- {
+			looked := r.Intn(3)
+			for n := looked; n > 0; n-- {
 				w.reload()
 				w.someGets(1 + r.Intn(3))
 			}
-			if r.Intn(4) == 0 {
+			if looked > 0 && w.lastData != nil && w.refs != refsLoadable && r.Intn(2) == 0 {
+				// the file comes back as it was, byte for byte and with its old modification time
+				w.restoreFile()
+				w.reload()
+				w.someGets(2 + r.Intn(3))
+			} else if r.Intn(4) == 0 {
 				w.setValues(map[string]string{plainKey(r): plainValue(r)})
 			}
 		case x == 11 || x == 10:
